@@ -1,26 +1,159 @@
-"""C20 — cutting propagation short never makes a claim wrong: every pass
-budget (0, 1, 2, 3, 5, fixpoint) for values and degrees independently."""
+"""C20 — cutting propagation short never makes a claim wrong: pass budgets
+0, 1, 2, 3, 5, 9, 14, 22, fixpoint for values and degrees independently, plus a
+source check that the time box is consulted only where the pass budget acts."""
+import os
+import re
 import common
 import degtable
 import propeng
 
 
+SOURCE = {}
+
+
+def _strip_comments(text):
+    text = re.sub(r"/\*.*?\*/", lambda m: " " * len(m.group(0)), text, flags=re.S)
+    return re.sub(r"//[^\n]*", "", text)
+
+
+def _span(text, start):
+    """(index of the opening brace at or after `start`, index just behind its matching closing brace)"""
+    i = text.index("{", start)
+    depth = 0
+    for j in range(i, len(text)):
+        if text[j] == "{":
+            depth += 1
+        elif text[j] == "}":
+            depth -= 1
+            if depth == 0:
+                return i, j + 1
+    raise ValueError("unbalanced braces")
+
+
+def source_check(repo):
+    """Reads cfg.rs: the time box (`MAX_ANALYSIS_DURATION`, `.elapsed()`) may be consulted only by the two guarded tests
+    inside the pass loops of propagate_values / propagate_degrees (which is where the pass budget of the harness acts);
+    the hook lines that make the budget act must be there. Returns {"problems": [...], "constant": ..., ...}."""
+    path = os.path.join(repo, "program_structure/src/control_flow_graph/cfg.rs")
+    out = {"file": path, "problems": [], "constant": None, "uses_of_the_time_box": 0}
+    try:
+        text = _strip_comments(open(path).read())
+    except OSError as e:
+        out["problems"].append("cannot read %s: %s" % (path, e))
+        return out
+    m = re.search(r"const\s+MAX_ANALYSIS_DURATION\s*:\s*Duration\s*=\s*([^;]+);", text)
+    if not m:
+        out["problems"].append("the definition `const MAX_ANALYSIS_DURATION: Duration = ...;` was not found")
+        return out
+    out["constant"] = " ".join(m.group(1).split())
+    allowed = [(m.start(), m.end())]           # the definition itself
+    mm = re.search(r"pub\s+mod\s+verif_budget\b", text)
+    if mm:
+        a, b = _span(text, mm.end())
+        allowed.append((a, b))                 # the hook module (compiled under cfg(circomspect_verif) only)
+    else:
+        out["problems"].append("hook module `verif_budget` is missing")
+    for fn, budget in (("propagate_degrees", "DEGREE_PASSES"), ("propagate_values", "VALUE_PASSES")):
+        fm = re.search(r"fn\s+%s\s*\(" % fn, text)
+        if not fm:
+            out["problems"].append("fn %s not found" % fn)
+            continue
+        fa, fb = _span(text, fm.end())
+        body = text[fa:fb]
+        loops = [w for w in re.finditer(r"while\s+rerun\s*\{", body)]
+        if len(loops) != 1:
+            out["problems"].append("%s: expected exactly one `while rerun` pass loop, found %d" % (fn, len(loops)))
+            continue
+        la, lb = _span(body, loops[0].start())
+        loop = body[la:lb]
+        tests = list(re.finditer(r"if\s+start\s*\.\s*elapsed\s*\(\s*\)\s*>\s*MAX_ANALYSIS_DURATION\s*\{", loop))
+        if len(tests) != 1:
+            out["problems"].append("%s: expected exactly one test `if start.elapsed() > MAX_ANALYSIS_DURATION` inside the pass loop, found %d" % (fn, len(tests)))
+        for t in tests:
+            ta, tb = _span(loop, t.end() - 1)
+            stmts = [x.strip() for x in re.sub(r"(debug|trace|info|warn)!\s*\([^;]*\)\s*;", "", loop[ta + 1:tb - 1]).split(";") if x.strip()]
+            if stmts != ["rerun = false"]:
+                out["problems"].append("%s: the body of the time-box test does more than `rerun = false`: %r" % (fn, stmts))
+            allowed.append((fa + la + t.start(), fa + la + t.end()))
+        # the hook lines: budget test before the loop, shifted start inside the loop (behind the passes of one round) and behind the loop
+        pre, post = body[:la], body[lb:]
+        if not re.search(r"verif_budget::exhausted\(\s*&verif_budget::%s" % budget, pre):
+            out["problems"].append("%s: hook line `verif_budget::exhausted(&verif_budget::%s, ..)` before the pass loop is missing" % (fn, budget))
+        hk = r"let\s+start\s*=\s*\{?[^;]*verif_budget::start_after\(\s*&verif_budget::%s" % budget
+        inside = re.search(r"let\s+start\s*=\s*\{[^}]*verif_budget::start_after\(\s*&verif_budget::%s" % budget, loop)
+        if not inside:
+            out["problems"].append("%s: hook line `let start = { .. verif_budget::start_after(&verif_budget::%s, ..) }` inside the pass loop is missing" % (fn, budget))
+        elif tests and inside.start() > tests[0].start():
+            out["problems"].append("%s: the hook inside the pass loop stands behind the time-box test" % fn)
+        after = re.search(hk, post)
+        if not after:
+            out["problems"].append("%s: hook line `let start = verif_budget::start_after(&verif_budget::%s, ..)` behind the pass loop is missing" % (fn, budget))
+        elif re.search(r"elapsed|MAX_ANALYSIS_DURATION|Instant", post[:after.start()]):
+            out["problems"].append("%s: the time box is consulted between the pass loop and the hook line behind it (there the pass budget is not visible)" % fn)
+        if not re.search(r"let\s+start\s*=\s*Instant::now\(\)", pre):
+            out["problems"].append("%s: `let start = Instant::now();` before the pass loop is missing" % fn)
+    for u in re.finditer(r"MAX_ANALYSIS_DURATION|\.\s*elapsed\s*\(", text):
+        out["uses_of_the_time_box"] += 1
+        if not any(a <= u.start() < b for a, b in allowed):
+            line = text.count("\n", 0, u.start()) + 1
+            out["problems"].append("cfg.rs:%d: `%s` is used outside the two guarded tests inside the pass loops: %s"
+                                   % (line, u.group(0).strip(), text.splitlines()[line - 1].strip()[:120]))
+    # other files of the crate must not consult a clock either
+    others = []
+    root = os.path.join(repo, "program_structure/src")
+    for d, _, fs in os.walk(root):
+        for f in fs:
+            if f.endswith(".rs") and os.path.join(d, f) != path:
+                t = _strip_comments(open(os.path.join(d, f), errors="replace").read())
+                if re.search(r"Instant::now|\.\s*elapsed\s*\(|SystemTime", t):
+                    others.append(os.path.relpath(os.path.join(d, f), repo))
+    if others:
+        out["problems"].append("a clock is consulted in other files of program_structure: %s" % ", ".join(sorted(others)))
+    return out
+
+
 def gen(ctx):
     degtable.gen()
+    SOURCE.clear()
+    SOURCE.update(source_check(common.REPO))
 
-BUDGETS = [("0", "0"), ("1", "-"), ("-", "1"), ("2", "2"), ("3", "1"), ("1", "3"), ("5", "5"), ("-", "-")]
+# One pass of the real loops stops at the first block that learns something (`rerun = rerun || ...`), so even small
+# definitions need a dozen passes and more: the larger budgets cut where claims on merged values already exist.
+BUDGETS = [("0", "0"), ("1", "-"), ("-", "1"), ("2", "2"), ("3", "1"), ("1", "3"), ("5", "5"), ("-", "9"), ("14", "14"), ("-", "22"), ("-", "-")]
 
 
 def run(ctx, proofs):
     r = propeng.run(ctx, proofs, BUDGETS, check_vals=True, check_degs=True,
-                    n_quick=350, n_thorough=5000, props=("C06", "C07", "C20"))
+                    n_quick=260, n_thorough=5000, props=("C06", "C07", "C20"))
     propeng.verdict(ctx, proofs, r, kinds=("value", "degree", "finding", None),
                     known_classes=(),
                     extra_cov={"budgets": BUDGETS,
                                "open_statements": ["the universal budget theorems (C20_mirror_validated_at_every_budget for value claims, "
                                                    "C20_degrees_validated_at_every_budget / C20_propagate_degrees_validated_at_every_budget for degree "
                                                    "ranges) are about the mirror Model.Propagate, which is compared with the implementation pass by pass on "
-                                                   "every explored definition"]})
+                                                   "every explored definition",
+                                                   "the degree half inherits what C07's graph theorem is about: the lock-step family semantics Spec.DegSem with `pick_ok` assumed; "
+                                                   "concrete runs are represented when all valuations follow the same path; families with diverging paths and signal-dependent trip "
+                                                   "counts are open (see C07 open_statements); at a cut the oracle judges them per iteration context",
+                                                   "the pass budget replaces the wall clock: that no other code consults the clock is a SOURCE check of cfg.rs (time_box_source_check), "
+                                                   "not a theorem; budget 0 is a hook-only path (the real loop always runs one pass)"]})
+    source_verdict(ctx)
+
+
+def source_verdict(ctx):
+    """After the normal search: the time box is consulted only where the pass budget acts."""
+    if not SOURCE:
+        SOURCE.update(source_check(common.REPO))
+    ctx.coverage["time_box_source_check"] = {"MAX_ANALYSIS_DURATION": SOURCE.get("constant"), "uses_of_the_time_box_in_cfg_rs": SOURCE.get("uses_of_the_time_box"),
+                                             "problems": SOURCE.get("problems"),
+                                             "rule": "cfg.rs is read (comments stripped): MAX_ANALYSIS_DURATION and .elapsed() occur only in the definition, in the hook "
+                                                     "module verif_budget and in the one test `if start.elapsed() > MAX_ANALYSIS_DURATION { rerun = false; }` inside the "
+                                                     "`while rerun` loop of propagate_values and of propagate_degrees; the hook lines (budget test before the loop, shifted "
+                                                     "start inside and behind the loop) are present; no other file of program_structure consults a clock"}
+    if SOURCE.get("problems"):
+        ctx.violation("the time box of propagation is consulted where the pass budget of the harness does not act, or the hook lines are missing: "
+                      + "; ".join(SOURCE["problems"])[:600],
+                      {"broken": "tie between the pass budget (verification hook) and the time box MAX_ANALYSIS_DURATION in cfg.rs", "problems": SOURCE["problems"]}, no_input=True)
 
 
 def replay(ctx, rep):
